@@ -153,6 +153,22 @@ func planC03(p *propDef, tier string, seed uint64, n int) []*Case {
 				{Name: "stop", Kind: "stop", Trigger: scen.Trigger{Point: "pause.resume.enter", Nth: 1}},
 			}, nil)
 		}
+		// pause, then resume and pause again at once (before the released workers have run), resume, drain
+		for j, pt := range []string{"fin.recv", "post.recv", "pre.recv", "arch.recv"} {
+			if pr.pc[pt] == 0 {
+				continue
+			}
+			nth := 1 + (i+2*j)%pr.pc[pt]
+			add(pr, mix(pr.seed, uint64(400+j)), fmt.Sprintf("pause@%s#%d,resume+pause,resume", pt, nth), []scen.CtlAction{
+				{Name: "pause", Kind: "pause", Trigger: scen.Trigger{Point: pt, Nth: nth}, Arg: "operator"},
+				{Name: "flip", Kind: "resume-pause", Trigger: scen.Trigger{After: "pause"}, Arg: "operator"},
+				{Name: "resume", Kind: "resume", Trigger: scen.Trigger{After: "flip"}},
+			}, nil)
+			if j%2 == 0 {
+				sc := cases[len(cases)-1].Scenario
+				sc.Sched.Slow, sc.Sched.SlowDiv = strings.SplitN(pt, ".", 2)[0]+".", 64 // the stage whose workers lag behind
+			}
+		}
 		// paused by the disk watchdog (low space from the 2nd tick on), stop while paused / after space returns
 		ok := scen.DiskReading{Blocks: 1 << 28, Bavail: 1 << 27, Bsize: 4096}
 		low := scen.DiskReading{Blocks: 1 << 28, Bavail: 1 << 10, Bsize: 4096}
@@ -356,7 +372,9 @@ func planC16(p *propDef, tier string, seed uint64, n int) []*Case {
 		}
 		pairs[i] = pr
 	})
-	var cases []*Case
+	// the limiter table under statement-level interleavings of concurrent first contacts (component simulation; only the
+	// table bound is judged for this property)
+	cases := compCases("C16", "ratelimiter", max(1, n/8), 150, seed^0xc16, nil)
 	for _, pr := range pairs {
 		cases = append(cases, &Case{Idx: len(cases), Seed: pr.sa, Scenario: pr.a, Label: "N-seeds"})
 		b := pr.b
